@@ -1,6 +1,6 @@
 import XixiKV.Proofs.EngineMerge.Out
 import XixiKV.Properties.C07
-import XixiKV.Proofs.TransEq2
+import XixiKV.Proofs.TransEq2Codec
 /-!
 # C18 — hint files faithfully index the merged data files
 
